@@ -108,6 +108,30 @@ func ResponseCases(seed int64, n int) []Case {
 		id := fmt.Sprintf("resp-conflict-default-and-numbered-%d", i)
 		out = append(out, Case{ID: id, Family: "response", Spec: d.Root, Flags: Flags{Client: true}, Safe: false, Label: map[string]string{"set": id}})
 	}
+	for i, order := range [][2]string{{"default", "404"}, {"404", "default"}} {
+		// the same conflict reached through two names of one alias chain (body-less:
+		// aliases of JSON-body responses are a recorded finding of their own)
+		d := NewDoc("conflict-alias")
+		d.Comp("responses", "Gone", M{"description": "gone", "headers": M{"X-Why": M{"schema": Prim("string", "")}}})
+		d.Comp("responses", "Missing", Ref("responses", "Gone"))
+		d.Op("/first", "get", M{"responses": M{"200": M{"description": "ok"}, order[0]: Ref("responses", "Gone")}})
+		d.Op("/second", "get", M{"responses": M{"200": M{"description": "ok"}, order[1]: Ref("responses", "Missing")}})
+		id := fmt.Sprintf("resp-conflict-through-alias-%d", i)
+		out = append(out, Case{ID: id, Family: "response", Spec: d.Root, Flags: Flags{Client: true}, Safe: false, Label: map[string]string{"set": id}})
+	}
+	{
+		// JSON documented with a parameter: the documented Content-Type is the key as written
+		d := NewDoc("json-charset")
+		d.Comp("schemas", "Pet", Obj([]string{"name"}, M{"name": Prim("string", ""), "age": Prim("integer", "int32")}))
+		d.Comp("responses", "Pet", M{"description": "a pet", "content": M{"application/json; charset=utf-8": M{"schema": Ref("schemas", "Pet")}}})
+		d.Comp("responses", "Error", Resp("error", Obj([]string{"message"}, M{"message": Prim("string", "")})))
+		d.Op("/pets/{id}", "get", M{"parameters": L{ParamNode("id", "path", true, Prim("string", ""))},
+			"responses": M{"200": Ref("responses", "Pet"), "404": Ref("responses", "Error")}})
+		d.Op("/pets", "post", M{"responses": M{"201": Ref("responses", "Pet"),
+			"400": M{"description": "inline", "content": M{"application/json;charset=UTF-8": M{"schema": Ref("schemas", "Pet")}}}}})
+		id := "resp-fixed-json-media-type-with-charset"
+		out = append(out, Case{ID: id, Family: "response", Spec: d.Root, Flags: Flags{Client: true}, Safe: false, Label: map[string]string{"set": id}})
+	}
 	{
 		// one shared response under different statuses of several operations
 		// (in path order: the first differs from the later ones, and the other way round)
